@@ -389,3 +389,25 @@ pub fn gen_net(rng: &mut Rng, p: &NetParams) -> RefNet {
         .collect();
     RefNet { coords, edges, motifs, metric: p.metric }
 }
+
+/// the repo's Graph for this network: built in memory the way the loader does it, or (via_files) written
+/// to CSV files and loaded by the real `Graph::from_files`, so that the search monitors also run on
+/// graphs produced by the loader
+pub fn graph_for(net: &RefNet, via_files: bool) -> Result<std::sync::Arc<Graph>, String> {
+    if !via_files {
+        return Ok(std::sync::Arc::new(net.to_graph()));
+    }
+    use std::sync::atomic::{AtomicU64, Ordering};
+    static N: AtomicU64 = AtomicU64::new(0);
+    let dir = std::path::PathBuf::from(crate::root()).join(".work").join(format!("g-{}-{}", std::process::id(), N.fetch_add(1, Ordering::Relaxed)));
+    std::fs::create_dir_all(&dir).map_err(|e| e.to_string())?;
+    let ep = dir.join("edges.csv");
+    let vp = dir.join("vertices.csv");
+    let r = (|| {
+        write_text(&ep, &net.edges_csv(false), false).map_err(|e| e.to_string())?;
+        write_text(&vp, &net.vertices_csv(0), false).map_err(|e| e.to_string())?;
+        Graph::from_files(&ep, &vp, None, None, Some(false)).map_err(|e| e.to_string())
+    })();
+    let _ = std::fs::remove_dir_all(&dir);
+    r.map(std::sync::Arc::new)
+}
